@@ -7,6 +7,7 @@ import (
 	"io"
 	"net/http"
 	"net/url"
+	"regexp"
 	"strings"
 	"testing"
 
@@ -37,7 +38,10 @@ type Case struct {
 	BasePath string `json:"base_path"`
 	// Slash: the Go client is created with a base URL ending in '/' (as the integration suite does)
 	Slash bool `json:"client_url_trailing_slash,omitempty"`
-	Ops   []Op `json:"ops"`
+	// Pool: the addresses this history uses (indices into addrs; empty = all of them): with few
+	// addresses most requests meet mailboxes that hold mail, several of them with the same ids
+	Pool []int `json:"pool,omitempty"`
+	Ops  []Op  `json:"ops"`
 }
 
 // addresses whose mailbox names exercise URL-significant characters
@@ -78,12 +82,17 @@ var prop = hx.Prop[Case]{
 		"base path '', '/p', '/a/b'): deliveries through the manager to addresses whose mailbox names contain URL-significant characters; raw " +
 		"HTTP list/show/source (REST and web UI)/web-UI message/html/PATCH seen (true, false, junk body)/DELETE message/DELETE mailbox; the " +
 		"same through pkg/rest/client incl. the header convenience methods; ids live/removed/never issued/'latest'/URL-significant; oracle = " +
-		"store model: every 200 must equal it, every mutation must have exactly the model's effect on the whole store, a missing message " +
+		"store model: every 200 must equal it (a message view must show the body text of that delivery and of no other: each body carries a unique word), every mutation must have exactly the model's effect on the whole store, a missing message " +
 		"must be 404, no transport error, no 'http: panic serving' in the server log; non-trivial = history mixes a delivery, an HTTP/client " +
 		"mutation and a request for a missing message, or uses the client with a name containing a URL-significant character",
 	Quick: 300, Thorough: 2000,
 	Gen: func(t *rapid.T) Case {
+		var pool []int
+		if rapid.IntRange(0, 3).Draw(t, "pooled") > 0 {
+			pool = rapid.SliceOfNDistinct(rapid.IntRange(0, len(addrs)-1), 2, 5, rapid.ID[int]).Draw(t, "pool")
+		}
 		return Case{
+			Pool:     pool,
 			Backend:  rapid.SampledFrom([]string{"mem", "file"}).Draw(t, "backend"),
 			Naming:   rapid.SampledFrom([]string{"local", "local", "full"}).Draw(t, "naming"),
 			BasePath: rapid.SampledFrom([]string{"", "", "/p", "/a/b"}).Draw(t, "basepath"),
@@ -100,6 +109,7 @@ type item struct {
 	seen              bool
 	size              int64
 	src               []byte
+	token             string // a word only this delivery's body contains ("" for an empty body)
 }
 
 type hdrJSON struct {
@@ -113,7 +123,10 @@ type hdrJSON struct {
 	Body    *struct {
 		Text string `json:"text"`
 	} `json:"body"`
+	Text string `json:"text"` // web UI: the body text rendered as HTML
 }
+
+var tokenRe = regexp.MustCompile(`zqd[0-9]+qz`)
 
 func run(c Case) *hx.Outcome {
 	o := &hx.Outcome{}
@@ -212,8 +225,25 @@ func run(c Case) *hx.Outcome {
 		}
 	}
 
+	// the body text a message view shows must be this message's: its own token and nobody else's
+	cmpBody := func(where, text string, it *item) {
+		for _, tok := range tokenRe.FindAllString(text, -1) {
+			if tok != it.token {
+				fail("foreign-body", "%s: the body text shown for message %s contains %q, which belongs to another delivery (own token %q): %.120q", where, it.id, tok, it.token, text)
+				return
+			}
+		}
+		if it.token != "" && !strings.Contains(text, it.token) {
+			fail("body-differs", "%s: the body text shown for message %s lacks its own text %q: %.120q", where, it.id, it.token, text)
+		}
+	}
+	deliveries := 0
+
 	for i, op := range c.Ops {
 		addr := addrs[op.Addr]
+		if len(c.Pool) > 0 {
+			addr = addrs[c.Pool[op.Addr%len(c.Pool)]]
+		}
 		rc, err := w.Policy.NewRecipient(addr)
 		if err != nil {
 			continue // address not acceptable in this naming mode
@@ -259,7 +289,13 @@ func run(c Case) *hx.Outcome {
 				if n > 1 {
 					subj = fmt.Sprintf("%s %d", op.Subj, k)
 				}
-				msg := &hx.MailMsg{From: &hx.Addr{Name: "Sender", Address: "from@a.test"}, To: []hx.Addr{{Address: addr}}, Subject: subj, Body: []byte(op.Body)}
+				body, token := op.Body, ""
+				if body != "" {
+					deliveries++
+					token = fmt.Sprintf("zqd%dqz", deliveries)
+					body += "delivery " + token + "\r\n"
+				}
+				msg := &hx.MailMsg{From: &hx.Addr{Name: "Sender", Address: "from@a.test"}, To: []hx.Addr{{Address: addr}}, Subject: subj, Body: []byte(body)}
 				origin, _ := w.Policy.ParseOrigin("env@a.test")
 				if err := w.Manager.Deliver(origin, []*policy.Recipient{rc}, "Received: from harness ([127.0.0.1]) by inbucket.test\r\n", msg.Bytes()); err != nil {
 					fail("harness", "%s: Deliver: %v", where, err)
@@ -273,7 +309,7 @@ func run(c Case) *hx.Outcome {
 				sm := ms[len(ms)-1]
 				src, _ := hx.ReadSource(sm)
 				from, to, _ := msg.Expect("env@a.test", []string{addr})
-				model[box] = append(model[box], &item{id: sm.ID(), subject: subj, size: sm.Size(), src: src,
+				model[box] = append(model[box], &item{id: sm.ID(), subject: subj, size: sm.Size(), src: src, token: token,
 					from: stringutil.StringAddress(from), to: stringutil.StringAddressList(to)})
 				issued[box] = append(issued[box], sm.ID())
 			}
@@ -319,6 +355,13 @@ func run(c Case) *hx.Outcome {
 					break
 				}
 				cmpHdr(where, h, box, model[box][idx])
+				if op.Verb == "uimsg" {
+					cmpBody(where, h.Text, model[box][idx])
+				} else if h.Body != nil {
+					cmpBody(where, h.Body.Text, model[box][idx])
+				} else {
+					fail("show", "%s: no body in %.100q", where, b)
+				}
 			case "source", "uisource", "uihtml":
 				path := map[string]string{"source": "/api/v1/mailbox/%s/%s/source", "uisource": "/serve/mailbox/%s/%s/source", "uihtml": "/serve/mailbox/%s/%s/html"}[op.Verb]
 				code, b, err := doHTTP("GET", fmt.Sprintf(path, ep, eid), "")
@@ -447,6 +490,8 @@ func run(c Case) *hx.Outcome {
 					m, err := hs[j].GetMessage()
 					if err != nil || m.ID != model[box][j].id {
 						fail("client-convenience", "%s: header.GetMessage: %v %v", where, m, err)
+					} else if m.Body != nil {
+						cmpBody(where, m.Body.Text, model[box][j])
 					}
 				case "hsource":
 					b, err := hs[j].GetSource()
@@ -517,6 +562,8 @@ func run(c Case) *hx.Outcome {
 					fail("client-get", "%s: GetMessage: %v", where, err)
 				} else if m.ID != it.id || m.Subject != it.subject || m.Size != it.size || m.Seen != it.seen {
 					fail("response-differs", "%s: client message id=%s subject=%q size=%d seen=%v vs store id=%s subject=%q size=%d seen=%v", where, m.ID, m.Subject, m.Size, m.Seen, it.id, it.subject, it.size, it.seen)
+				} else if m.Body != nil {
+					cmpBody(where, m.Body.Text, it)
 				}
 			case "source":
 				b, err := cl.GetMessageSource(ask, cid)
